@@ -109,6 +109,14 @@ def body_initbindings(desc, F, *args):
     from rdflib.plugins.sparql.evaluate import evalQuery
     g, i = _mkgraph("Memory", desc, F, args)
     t = F.iri(args[i])
+    if desc.get("assume_term_in_graph"):
+        # residual check for the recorded finding: the given term occurs in the data
+        occurs = False
+        for s_, _, o_ in g:
+            if t == s_ or t == o_:
+                occurs = True
+        if not occurs:
+            return None
     q1 = c04.prepare(desc["text1"], [])
     q2 = c04.prepare(desc["text2"], [t])       # VALUES ?x { <placeholder 0> }
     r1 = rows_of(evalQuery(g, q1, initBindings={desc["var"]: t}), desc["vars"])
@@ -317,6 +325,26 @@ def obligations(tier, seed):
                 obs.append(dict(oid="init/%s/%s%s" % (name, var, "-L" if kinds else ""), family="initbindings",
                                 desc={"name": name, "var": var, "text1": t1, "text2": t2, "vars": vs, "data": list(ds), "kinds": kinds},
                                 sig=[("x%d" % i, "i") for i in range(2 * len(ds) + 1)], budget=300))
+    # 5b. the same for variables that are the ends of a property path (the evaluator picks its direction from what is bound)
+    for ast in (["mul", ["iri", "p"], "+"], ["mul", ["iri", "p"], "*"], ["seq", ["iri", "p"], ["iri", "q"]], ["mul", ["alt", ["iri", "p"], ["inv", ["iri", "q"]]], "+"]):
+        ptxt = _path_text(ast)
+        for var in ("x", "y"):
+            t1 = "SELECT ?x ?y WHERE { ?x %s ?y }" % ptxt
+            t2 = "SELECT ?x ?y WHERE { ?x %s ?y VALUES ?%s { <%s> } }" % (ptxt, var, R.PLACEHOLDER % 0)
+            for ds in (["p", "p"], ["p", "q"]):
+                for kinds in (None, "L"):
+                    obs.append(dict(oid="init/path-%s/%s/%s%s" % (c11.show(ast), var, "".join(ds), "-L" if kinds else ""), family="initbindings",
+                                    desc={"name": "path " + c11.show(ast), "var": var, "text1": t1, "text2": t2, "vars": ["x", "y"], "data": ds,
+                                          "kinds": kinds},
+                                    sig=[("x%d" % i, "i") for i in range(2 * len(ds) + 1)], budget=300))
+        # join operand swap around a path pattern
+        t1 = "SELECT * WHERE { { ?y <%s> ?m } { ?x %s ?y } }" % (R.IRIS["q"], ptxt)
+        t2 = "SELECT * WHERE { { ?x %s ?y } { ?y <%s> ?m } }" % (ptxt, R.IRIS["q"])
+        for ds in (["p", "q"], ["p", "p", "q"]):
+            obs.append(dict(oid="rw/swap-join/path-%s/%s" % (c11.show(ast), "".join(ds)), family="rewrite",
+                            desc={"name": "path " + c11.show(ast), "rewrite": "swap-join", "text1": t1, "text2": t2, "vars1": ["x", "y", "m"],
+                                  "vars2": ["x", "y", "m"], "nconst": 0, "data": ds},
+                            sig=[("x%d" % i, "i") for i in range(2 * len(ds))], budget=300 if len(ds) == 2 else 900))
     # 6. prepared query re-used on G1, G2, G1
     prep = ["bgp2", "optional/o-shared", "optional-filter-both", "union/o-shared", "minus/o-shared", "exists/o-shared", "notexists/s-shared",
             "filter-eq-const", "bind-if", "values-undef", "subselect/o-shared", "subselect-distinct", "bind-after-opt", "opt-opt-seq"]
@@ -343,6 +371,16 @@ def obligations(tier, seed):
                             desc={"name": name, "text": R.render("select", group), "vars": R.vars_in_scope(group), "var": "x",
                                   "data": ["p", "q"], "kinds": kinds},
                             sig=[("x%d" % i, "i") for i in range(5)], budget=400))
+    # prepared queries containing property paths (path objects live in the algebra tree and are shared between evaluations)
+    for ast in (["mul", ["iri", "p"], "+"], ["mul", ["iri", "p"], "*"], ["mul", ["iri", "p"], "?"], ["seq", ["iri", "p"], ["mul", ["iri", "p"], "*"]]):
+        for form, text, vs, nc in (("start-const", "SELECT ?o WHERE { <%s> %s ?o }" % (R.PLACEHOLDER % 0, _path_text(ast)), ["o"], 1),
+                                   ("end-const", "SELECT ?s WHERE { ?s %s <%s> }" % (_path_text(ast), R.PLACEHOLDER % 0), ["s"], 1),
+                                   ("free", "SELECT ?s ?o WHERE { ?s %s ?o }" % _path_text(ast), ["s", "o"], 0),
+                                   ("start-joined", "SELECT ?s ?o WHERE { ?s <%s> ?m . ?m %s ?o }" % (R.IRIS["q"], _path_text(ast)), ["s", "o"], 0)):
+            ds = ["p", "p"] if form != "start-joined" else ["q", "p"]
+            obs.append(dict(oid="prepared/path-%s/%s" % (c11.show(ast), form), family="prepared",
+                            desc={"name": "path %s %s" % (c11.show(ast), form), "text": text, "vars": vs, "nconst": nc, "data": ds},
+                            sig=[("x%d" % i, "i") for i in range(4 * len(ds) + nc)], budget=600))
     for mname in ["group-count", "group-min", "order-o-s", "distinct-o"]:
         d1 = {"group": c08.BASES["bgp"], "mods": M[mname]}
         outv = [x if isinstance(x, str) else x[3] for x in M[mname]["select"]]
@@ -398,8 +436,16 @@ def bounds(tier):
             "outside": "query cache of Graph.query (text keyed, concrete), SPARQLStore, n>4"}
 
 
+def _zero_length_path(d):
+    return str(d.get("name", "")).startswith("path ") and ("*" in d["name"] or "?" in d["name"])
+
+
 def finding_key(ob, cex, reason):
     d = ob["desc"]
+    if ob["family"] == "initbindings" and _zero_length_path(d):
+        if d.get("assume_term_in_graph"):
+            return "initbindings|residual|%s" % reason
+        return "initbindings|zero-length-path-on-term-outside-graph"
     if ob["family"] == "store" and d.get("store") == "Aggregate":
         if d.get("assume_disjoint_parts"):
             return "store|residual|%s" % reason
@@ -409,6 +455,10 @@ def finding_key(ob, cex, reason):
 
 def residual(ob):
     d = ob["desc"]
+    if ob["family"] == "initbindings" and _zero_length_path(d) and not d.get("assume_term_in_graph"):
+        o2 = dict(ob)
+        o2["desc"] = dict(d, assume_term_in_graph=True)
+        return o2
     if ob["family"] == "store" and d.get("store") == "Aggregate" and not d.get("assume_disjoint_parts"):
         o2 = dict(ob)
         o2["desc"] = dict(d, assume_disjoint_parts=True)
